@@ -208,10 +208,31 @@ def reference(theta, hat, alpha, method):
     return out.reshape(yshape + (2,))
 
 
+def pole_crossed(theta, hat, alpha):
+    """|a (z0 + z_alpha)| >= 1 on some tail of some component: the ordering / nesting claims are not made there"""
+    import scipy.stats as st
+    N = theta.shape[0]
+    th, ht = theta.reshape(N, -1), np.asarray(hat, dtype=float).reshape(-1)
+    for j in range(th.shape[1]):
+        fin = th[:, j][~np.isnan(th[:, j])]
+        if not len(fin):
+            continue
+        with np.errstate(all="ignore"):
+            z0 = st.norm.ppf(np.sum(fin <= ht[j]) / len(fin))
+            d = fin - ht[j]
+            den = 6 * np.sum(d ** 2) ** 1.5
+            acc = np.sum(d ** 3) / den if den != 0 else 0.0
+        if np.isfinite(z0) and any(abs(acc * (z0 + st.norm.ppf(q))) >= 1 - 1e-9 for q in (alpha / 2, 1 - alpha / 2)):
+            return True
+    return False
+
+
 def oracle(case):
     from vf.framework import real_repo
     real_repo()
     from score_analysis.utils import bootstrap_ci
+    case = dict(case)
+    case.pop("_pole", None)
     rng = np.random.RandomState(case["seed"])
     N, yshape, kind, method = case["N"], tuple(case["yshape"]), case["kind"], case["method"]
     shape = (N,) + yshape
@@ -225,6 +246,11 @@ def oracle(case):
         theta = rng.exponential(size=shape) ** 2
     elif kind == "tiny":
         theta = 1e-5 * rng.exponential(size=shape)
+    elif kind == "outlier":
+        # one dominant outlier per component (|a| close to 1/6), the rest on one side of the estimate 0: with a tiny alpha the
+        # acceleration term crosses its pole, where only agreement with the documented formula is claimed
+        theta = rng.uniform(0.1, 1.0, size=shape) * (1 if case["seed"] % 2 == 0 else -1)
+        theta[0] = -1000.0 * (1 if case["seed"] % 2 == 0 else -1)
     else:
         theta = rng.normal(size=shape)
     if case.get("nan") and N > 2:
@@ -233,7 +259,7 @@ def oracle(case):
         theta = np.where(m, np.nan, theta)
     hat_kind = case.get("hat", "median")
     with np.errstate(all="ignore"):
-        hat = np.nanmedian(theta, axis=0) if hat_kind == "median" else (np.nanmax(theta, axis=0) + 1.0 if hat_kind == "above" else np.nanmin(theta, axis=0) - 1.0 if hat_kind == "below" else theta[0])
+        hat = np.zeros(yshape) if hat_kind == "zero" else np.nanmedian(theta, axis=0) if hat_kind == "median" else (np.nanmax(theta, axis=0) + 1.0 if hat_kind == "above" else np.nanmin(theta, axis=0) - 1.0 if hat_kind == "below" else theta[0])
     info = f"[method={method} N={N} Y={yshape} data={kind} nan={case.get('nan')} hat={hat_kind} seed={case['seed']}]"
     alphas = case["alphas"]
     res = {}
@@ -249,7 +275,9 @@ def oracle(case):
         lo, hi = np.asarray(got)[..., 0], np.asarray(got)[..., 1]
         with np.errstate(all="ignore"):
             mn, mx = np.nanmin(theta, axis=0), np.nanmax(theta, axis=0)
-        if np.any(lo > hi + 1e-15) or np.any(lo < mn - 1e-15) or np.any(hi > mx + 1e-15):
+        pole = method == "bca" and pole_crossed(theta, hat, al)
+        case["_pole"] = case.get("_pole") or pole
+        if np.any(lo < mn - 1e-15) or np.any(hi > mx + 1e-15) or np.any(hi < mn - 1e-15) or np.any(lo > mx + 1e-15) or (not pole and np.any(lo > hi + 1e-15)):
             return f"limits not ordered / outside the range of the finite replicates (alpha={al}) {info}"
         # reordering, affine equivariance, per-component independence
         perm = rng.permutation(N)
@@ -274,7 +302,7 @@ def oracle(case):
             if not np.allclose(np.asarray(joint)[..., k, :], res[al], rtol=1e-12, atol=1e-12, equal_nan=True):
                 return f"vector alpha: entry {k} differs from the scalar call {info}"
     als = sorted(alphas)
-    if method != "bca" or N <= 500:
+    if (method != "bca" or N <= 500) and not case.get("_pole"):
         for a1, a2 in zip(als, als[1:]):
             w1, w2 = res[a1], res[a2]
             if np.any(w1[..., 0] > w2[..., 0] + 1e-12) or np.any(w2[..., 1] > w1[..., 1] + 1e-12):
@@ -315,7 +343,14 @@ def bounded(chk):
                             for seed in seeds:
                                 items.append({"method": method, "N": N, "yshape": list(yshape), "kind": kind, "nan": nan, "hat": hat,
                                               "seed": chk.seed * 1000 + seed, "alphas": [0.01, 0.05, 0.3]})
-    chk.bounded["bound"] = "N in {1,2,7,40,200} replicates; metric shapes (), (3,), (2,2); normal / discrete / constant / skewed / tiny-scale data, with and without 25% NaNs; estimate at the median, a replicate, above or below all; alphas 0.01, 0.05, 0.3 (scalar and vector); seeded"
+    for method in ("bc", "bca"):
+        for N in (12, 50):
+            for yshape in ((), (2,)):
+                for nan in (False, True):
+                    for seed in range(4):
+                        items.append({"method": method, "N": N, "yshape": list(yshape), "kind": "outlier", "nan": nan, "hat": "zero", "seed": chk.seed * 1000 + seed,
+                                      "alphas": [1e-6, 1e-5, 0.05]})
+    chk.bounded["bound"] = "outlier-laden data with alpha down to 1e-6 (acceleration term beyond its pole: formula agreement only); N in {1,2,7,40,200} replicates; metric shapes (), (3,), (2,2); normal / discrete / constant / skewed / tiny-scale data, with and without 25% NaNs; estimate at the median, a replicate, above or below all; alphas 0.01, 0.05, 0.3 (scalar and vector); seeded"
     chk.bounded["rule"] = "grid x seeds; compared with an independent NumPy/SciPy transcription of the documented formulas"
     run_bounded(chk, items, eval_items)
     chk.samples.append({"bounded-case": items[101]})
